@@ -94,7 +94,8 @@ Inductive gev :=
 | GRemovedW (w : watch)                  (* ... every handler of w removed *)
 | GRemovedAll                            (* ... every handler removed *)
 | GSnap (w : watch) (hs : list handler)  (* the dispatcher copied the handler set of w *)
-| GMarkerRead (t : tid) (skip : bool).   (* stop(): the unlocked read of _last_item; skip = the marker is not put *)
+| GMarkerRead (t : tid) (skip : bool)
+| GUnsched (t : tid) (w : watch) (e : emid).   (* unschedule(w) by t took emitter e out of the registry *)   (* stop(): the unlocked read of _last_item; skip = the marker is not put *)
 
 Inductive epc := ENew | ECheckPc | EPutPc | EExiting | EExited.
 
@@ -282,8 +283,9 @@ Definition exec (s : state) (t : tid) (i : instr) (k : list instr) (inp : input)
       | Some e =>
           if amem N.eqb w (handlers s) then
             let s1 := say (GRemovedW w) (set_efw (aremove N.eqb w (efw s)) (set_handlers (aremove N.eqb w (handlers s)) s)) in
+            let s2 := say (GUnsched t w e) (set_emitters (remE e (emitters s)) s1) in
             if memE e (emitters s) then
-              go (IEmStop e :: IEmJoin e :: IDelWatch w :: k) (set_emitters (remE e (emitters s)) s1)
+              go (IEmStop e :: IEmJoin e :: IDelWatch w :: k) s2
             else raise s1
           else raise s
       end
